@@ -275,6 +275,11 @@ type machine struct {
 	buf      bytes.Buffer
 	destOld  []int // values the last used destination held before it was overwritten from the wire
 
+	// the raw longs the harness (as the caller) passed to the last New*WithData and a private copy of them: the
+	// container must not write into the caller's slice (variant "exact": compared at every later check), nor
+	// keep reading from it (variant "exported": the caller scribbles over its slice right after the call)
+	callerLongs, callerCopy []uint64
+
 	idsName, placeName string // id order / placement (the second container of a pair uses the other id order)
 	pfx                string // class prefix
 }
@@ -420,6 +425,12 @@ func (m *machine) check(what string) bool {
 	if bad >= 0 {
 		m.fail(what+"/Get/wrong-value", fmt.Sprintf("Get(%d)=%d, model has %d", bad, got, m.model[bad]))
 		return false
+	}
+	for i := range m.callerCopy {
+		if m.callerLongs[i] != m.callerCopy[i] {
+			m.fail(what+"/callers-data-slice-changed", fmt.Sprintf("long %d of the slice given to %s earlier is now %#x; the caller passed %#x and has not touched it", i, m.k.ctorName, m.callerLongs[i], m.callerCopy[i]))
+			return false
+		}
 	}
 	if !m.writeWire(what) {
 		return false
@@ -747,6 +758,14 @@ func (m *machine) reload(variant string, judged bool) bool {
 	m.c = nc
 	m.fromWire = true
 	m.wireOK = false
+	if variant == "exact" {
+		m.callerLongs, m.callerCopy = longs, append([]uint64{}, longs...)
+	} else {
+		m.callerLongs, m.callerCopy = nil, nil
+		for i := range longs {
+			longs[i] = ^longs[i] // the caller reuses its buffer
+		}
+	}
 	if !judged {
 		return m.agrees()
 	}
